@@ -67,7 +67,9 @@ func (r *Resolver) findLayer(base string) (string, bool) {
 	var found []string
 	for _, e := range Exts {
 		p := base + "." + e
-		if _, err := os.Stat(p); err == nil || !os.IsNotExist(err) {
+		// a provider is a directory entry with that name (a name that
+		// cannot even be looked up — too long for the filesystem — is no provider)
+		if _, err := os.Lstat(p); err == nil {
 			found = append(found, p)
 		}
 	}
@@ -78,6 +80,10 @@ func (r *Resolver) findLayer(base string) (string, bool) {
 		return "", false
 	}
 	return found[0], true
+}
+
+func globEscape(p string) string {
+	return strings.NewReplacer("\\", "\\\\", "*", "\\*", "?", "\\?", "[", "\\[").Replace(p)
 }
 
 // glob expands "<path>.*": the wildcard (and the extension) never cross a dot.
@@ -144,7 +150,9 @@ func (r *Resolver) parentsOf(path string) ([]string, error) {
 	if seenDirective && len(names) > 0 {
 		var out []string
 		for _, n := range names {
-			ms := glob(filepath.Join(filepath.Dir(path), n))
+			// the declaring file's directory is a literal path; only the
+			// $parent value may hold wildcards
+			ms := glob(filepath.Join(globEscape(filepath.Dir(path)), n))
 			if len(ms) == 0 {
 				return nil, &ResolveError{"missing $parent layer " + n}
 			}
